@@ -180,6 +180,57 @@ func TestFaults(t *testing.T) {
 	core.MarkExhaustive("faults (every read call, every write call, every message boundary +-1 per generated session)")
 }
 
+// TestCopyRows enumerates binary COPY rows whose announced field count and
+// field lengths do or do not fit the table; the handler reads them through the
+// library's binary row reader.
+func TestCopyRows(t *testing.T) {
+	if shard, _ := core.Shard(); shard != 0 {
+		return
+	}
+	hdr := "PGCOPY\n\377\r\n\x00\x00\x00\x00\x00\x00\x00\x00\x00"
+	for ncols := 1; ncols <= 3; ncols++ {
+		var cols []script.Col
+		for i := 0; i < ncols; i++ {
+			cols = append(cols, script.Col{Name: "c", T: []string{"int4", "text", "bool"}[i]})
+		}
+		st := script.Stmt{Cols: cols, Ops: []script.Op{{K: "copyin", Copy: &script.CopySpec{Format: 1, Rows: true, MaxReads: -1, OnAbort: "propagate"}}, {K: "complete", Tag: "COPY"}}}
+		for _, nf := range []int{0, ncols - 1, ncols, ncols + 1, ncols + 2, 65535} {
+			for _, field := range []string{"\xff\xff\xff\xff", "\x00\x00\x00\x04\x00\x00\x00\x07", "\x00\x00\x00\x01t", "\x00\x00\x00\x09ab"} {
+				for _, withHdr := range []bool{true, false} {
+					for _, split := range []bool{false, true} {
+						row := []byte{byte(nf >> 8), byte(nf)}
+						for f := 0; f < nf && f < 8; f++ {
+							row = append(row, field...)
+						}
+						stream := row
+						if withHdr {
+							stream = append([]byte(hdr), row...)
+						}
+						c := Case{EndEOF: true, Stepwise: true}
+						c.Cfg.SetLimit, c.Cfg.Limit = true, 4096
+						c.Cfg.Table.Q = map[string]script.Outcome{"copy": {Stmts: []script.Stmt{st}}}
+						c.Msgs = []script.CMsg{{K: "Q", Query: "copy"}}
+						if split && len(stream) > 3 {
+							k := len(stream) - 3
+							c.Msgs = append(c.Msgs, script.CMsg{K: "d", Data: stream[:k]}, script.CMsg{K: "d", Data: stream[k:]})
+						} else {
+							c.Msgs = append(c.Msgs, script.CMsg{K: "d", Data: stream})
+						}
+						c.Msgs = append(c.Msgs, script.CMsg{K: "c"}, script.CMsg{K: "Q", Query: "copy"}, script.CMsg{K: "c"})
+						core.RunCase(t, "copyrows", c, func(c Case) core.Result {
+							r := runLabelled(c)
+							r.NonTrivial = true
+							r.Labels = append(r.Labels, fmt.Sprintf("fields-vs-columns=%+d", nf-ncols))
+							return r
+						})
+					}
+				}
+			}
+		}
+	}
+	core.MarkExhaustive("copyrows (1..3 columns x 6 field counts x 4 field encodings x header x split)")
+}
+
 func TestAlloc(t *testing.T) {
 	if shard, _ := core.Shard(); shard != 0 {
 		return
@@ -251,7 +302,7 @@ func FuzzFresh(f *testing.F) {
 }
 
 func TestReplay(t *testing.T) {
-	core.Replay(t, map[string]func(Case) core.Result{"fresh": runLabelled, "session": runLabelled, "faults": runLabelled, "fuzz-session": runLabelled, "fuzz-fresh": runLabelled})
+	core.Replay(t, map[string]func(Case) core.Result{"copyrows": runLabelled, "fresh": runLabelled, "session": runLabelled, "faults": runLabelled, "fuzz-session": runLabelled, "fuzz-fresh": runLabelled})
 }
 func TestReplayAlloc(t *testing.T) {
 	core.Replay(t, map[string]func(Alloc) core.Result{"alloc": RunAlloc})
